@@ -367,6 +367,10 @@ struct RecCase {
 	int junk_unused;       // api 1/2: unused parities hold garbage
 };
 
+// a sequence of requests sets mode, generator family and decoder once, as a program does (raid_mode() is not called between
+// two decodes of a real run)
+static bool g_keep_setup = false;
+
 static std::string rec_desc(const RecCase &c)
 {
 	std::ostringstream o;
@@ -401,8 +405,10 @@ static std::string run_rec(const RecCase &c)
 		for (int j = 0; j < np; ++j)
 			if (std::find(c.ip.begin(), c.ip.end(), j) == c.ip.end()) { fill(b[nd + j].p, size, r, 0); want[nd + j].assign(b[nd + j].p, b[nd + j].p + size); }
 	}
-	set_family(c.fam, c.mode);
-	set_recv(c.recv);
+	if (!g_keep_setup) {
+		set_family(c.fam, c.mode);
+		set_recv(c.recv);
+	}
 	std::vector<int> ir = c.ir, id = c.id, ip = c.ip;
 	if (c.api == 0) raid_rec((int)ir.size(), ir.data(), nd, np, size, v.data());
 	else if (c.api == 1) raid_data((int)id.size(), id.data(), ip.data(), nd, size, v.data());
@@ -412,7 +418,7 @@ static std::string run_rec(const RecCase &c)
 		recf *f = nr == 1 ? R.r1 : nr == 2 ? R.r2 : R.rX;
 		f(nr, id.data(), ip.data(), nd, size, v.data());
 	}
-	set_recv(-1);
+	if (!g_keep_setup) set_recv(-1);
 	std::string why;
 	for (int i = 0; i < nd + np && why.empty(); ++i) {
 		if ((uint8_t *)v[i] != b[i].p) why = "pointer vector entry " + std::to_string(i) + " not restored";
@@ -428,6 +434,37 @@ static std::string run_rec(const RecCase &c)
 	for (auto &x : b) x.release();
 	zero.release();
 	return why;
+}
+
+// ---------------------------------------------------------------- REC sequence
+// several decode requests in one process, each related to the previous one (prefix, suffix, one dropped, same, other parities,
+// one added): a request must be answered exactly whatever was asked before (no state may leak from call to call)
+struct RecSeq { RecCase base; std::vector<std::vector<int>> ids, ips; };
+
+static std::string recseq_desc(const RecSeq &q)
+{
+	std::ostringstream o;
+	const RecCase &c = q.base;
+	o << "mode=recseq api=" << c.api << " gfmode=" << c.mode << " nd=" << c.nd << " np=" << c.np << " size=" << c.size
+	  << " seed=" << c.seed << " kind=" << c.kind << " fam=" << FAM[c.fam].name << " recv=" << (c.recv < 0 ? "default" : RECV[c.recv].name)
+	  << " junk=" << c.junk_unused << " n=" << q.ids.size();
+	for (size_t k = 0; k < q.ids.size(); ++k) o << " id" << k << "=" << ivec(q.ids[k]) << " ip" << k << "=" << ivec(q.ips[k]);
+	return o.str();
+}
+
+static std::string run_recseq(const RecSeq &q)
+{
+	set_family(q.base.fam, q.base.mode);
+	set_recv(q.base.recv);
+	struct Keep { Keep() { g_keep_setup = true; } ~Keep() { g_keep_setup = false; set_recv(-1); } } keep;
+	for (size_t k = 0; k < q.ids.size(); ++k) {
+		RecCase c = q.base;
+		c.id = q.ids[k]; c.ip = q.ips[k]; c.ir.clear();
+		c.seed = q.base.seed + 7919 * k;
+		std::string why = run_rec(c);
+		if (!why.empty()) return "request " + std::to_string(k) + " (id=" + ivec(c.id) + " ip=" + ivec(c.ip) + "): " + why;
+	}
+	return "";
 }
 
 // ---------------------------------------------------------------- CHECK / SCAN case
@@ -598,6 +635,63 @@ static bool prop_rec()
 		cls(c.api == 0 ? "raid_rec" : c.api == 1 ? "raid_data" : "direct variant");
 		if (c.api != 0 && (int)c.ip.size() >= 1 && c.ip[0] != 0) cls("parity subset not starting at P");
 		std::string why = run_rec(c);
+		if (!why.empty()) record_fail(d, why);
+		RC_ASSERT(why.empty());
+	});
+}
+
+static bool prop_recseq()
+{
+	return rc::check("every decode request of a sequence is answered exactly, whatever was asked before", [&]() {
+		RecSeq q;
+		RecCase &c = q.base;
+		c.mode = *full(gen::weightedElement<int>({{4, MODE_CAUCHY}, {1, MODE_VANDERMONDE}}));
+		c.np = *full(gen::inRange(2, c.mode == MODE_VANDERMONDE ? 4 : 7));
+		c.nd = *full(gen::weightedElement<int>({{3, 4}, {3, 6}, {2, 8}, {2, 12}, {1, 33}, {1, 251}, {1, 2}, {1, 3}}));
+		c.size = *full(gen::elementOf(std::vector<size_t>{64, 128, 256, 1024}));
+		c.seed = *full(gen::arbitrary<uint64_t>());
+		c.kind = 0;
+		c.api = *full(gen::weightedElement<int>({{1, 1}, {1, 2}}));
+		std::vector<int> fams, recvs;
+		for (int i = 0; i < NFAM; ++i) if (has(FAM[i].cpu)) fams.push_back(i);
+		for (int i = 0; i < NRECV; ++i) if (has(RECV[i].cpu)) recvs.push_back(i);
+		c.fam = *full(gen::elementOf(fams));
+		c.recv = *full(gen::elementOf(recvs));
+		if (c.api != 2 && *full(gen::inRange(0, 4)) == 0) c.recv = -1;
+		c.junk_unused = *full(gen::inRange(0, 2));
+		int nmax = std::min(c.np, c.nd);
+		int nr = *full(gen::inRange(std::max(1, nmax - 2), nmax + 1));
+		std::vector<int> id = *g_subset(c.nd, nr), ip = *g_subset(c.np, nr);
+		q.ids.push_back(id); q.ips.push_back(ip);
+		int nreq = *full(gen::inRange(2, 5));
+		bool shrank = false, grew = false;
+		for (int k = 1; k < nreq; ++k) {
+			int rel = *full(gen::inRange(0, 7));
+			std::vector<int> nid = id, nip = ip;
+			int n = (int)id.size();
+			if (rel == 0 && n >= 2) { int m = *full(gen::inRange(1, n)); nid.resize(m); nip.resize(m); shrank = true; }              // prefix
+			else if (rel == 1 && n >= 2) { int m = *full(gen::inRange(1, n)); nid.erase(nid.begin(), nid.begin() + (n - m)); nip.erase(nip.begin(), nip.begin() + (n - m)); shrank = true; } // suffix
+			else if (rel == 2 && n >= 2) { int j = *full(gen::inRange(0, n)); nid.erase(nid.begin() + j); int j2 = *full(gen::inRange(0, n)); nip.erase(nip.begin() + j2); shrank = true; } // one dropped
+			else if (rel == 3) { nip = *g_subset(c.np, n); }                                                                            // other parities
+			else if (rel == 4 && n < nmax) {                                                                                           // one added
+				std::vector<int> freed, freep;
+				for (int x = 0; x < c.nd; ++x) if (std::find(id.begin(), id.end(), x) == id.end()) freed.push_back(x);
+				for (int x = 0; x < c.np; ++x) if (std::find(ip.begin(), ip.end(), x) == ip.end()) freep.push_back(x);
+				if (!freed.empty() && !freep.empty()) {
+					nid.push_back(*full(gen::elementOf(freed))); nip.push_back(*full(gen::elementOf(freep)));
+					std::sort(nid.begin(), nid.end()); std::sort(nip.begin(), nip.end()); grew = true;
+				}
+			} else if (rel == 5) { int m = *full(gen::inRange(1, nmax + 1)); nid = *g_subset(c.nd, m); nip = *g_subset(c.np, m); }       // unrelated
+			// rel 6 (and the fall-through cases): the same request again
+			id = nid; ip = nip;
+			q.ids.push_back(id); q.ips.push_back(ip);
+		}
+		std::string d = recseq_desc(q);
+		note(d, true);
+		if (shrank) cls("a request is part of the previous one");
+		if (grew) cls("a request extends the previous one");
+		cls(c.api == 1 ? "raid_data" : "direct variant");
+		std::string why = run_recseq(q);
 		if (!why.empty()) record_fail(d, why);
 		RC_ASSERT(why.empty());
 	});
@@ -883,6 +977,13 @@ static int mode_replay(std::map<std::string, std::string> a)
 		c.ir = parse_ivec(a["ir"]); c.id = parse_ivec(a["id"]); c.ip = parse_ivec(a["ip"]); c.fam = find_fam(a["fam"]); c.recv = a["recv"] == "default" ? -1 : find_recv(a["recv"]);
 		c.junk_unused = atoi(a["junk"].c_str());
 		why = run_rec(c);
+	} else if (m == "recseq") {
+		RecSeq q; RecCase &c = q.base; c.api = atoi(a["api"].c_str()); c.mode = atoi(a["gfmode"].c_str()); c.nd = atoi(a["nd"].c_str()); c.np = atoi(a["np"].c_str());
+		c.size = strtoull(a["size"].c_str(), 0, 10); c.seed = strtoull(a["seed"].c_str(), 0, 10); c.kind = atoi(a["kind"].c_str());
+		c.fam = find_fam(a["fam"]); c.recv = a["recv"] == "default" ? -1 : find_recv(a["recv"]); c.junk_unused = atoi(a["junk"].c_str());
+		int n = atoi(a["n"].c_str());
+		for (int k = 0; k < n; ++k) { q.ids.push_back(parse_ivec(a["id" + std::to_string(k)])); q.ips.push_back(parse_ivec(a["ip" + std::to_string(k)])); }
+		why = run_recseq(q);
 	} else if (m == "chk") {
 		ChkCase c; c.mode = atoi(a["gfmode"].c_str()); c.nd = atoi(a["nd"].c_str()); c.np = atoi(a["np"].c_str()); c.size = strtoull(a["size"].c_str(), 0, 10);
 		c.seed = strtoull(a["seed"].c_str(), 0, 10); c.T = parse_ivec(a["T"]); c.S = parse_ivec(a["S"]); c.scan = atoi(a["scan"].c_str()); c.shape = atoi(a["shape"].c_str());
@@ -919,6 +1020,7 @@ int main(int argc, char **argv)
 	else if (mode == "basis") ok = mode_basis(a.count("stride") ? atoi(a["stride"].c_str()) : 1, a.count("offset") ? atoi(a["offset"].c_str()) : 0);
 	else if (mode == "gen") ok = prop_gen();
 	else if (mode == "rec") ok = prop_rec();
+	else if (mode == "recseq") ok = prop_recseq();
 	else if (mode == "chk") ok = prop_chk();
 	else if (mode == "recenum") ok = mode_recenum(a.count("ndmax") ? atoi(a["ndmax"].c_str()) : 4);
 	else if (mode == "minors") {
